@@ -9,9 +9,11 @@ import (
 	"golang.org/x/tools/go/ssa"
 )
 
-func (f *Frame) panicEdge(cond, kind, anchor string) {
+func (f *Frame) panicEdge(cond, kind, anchor string) { f.panicEdgeV(cond, kind, anchor, "") }
+
+func (f *Frame) panicEdgeV(cond, kind, anchor, val string) {
 	// cond is the condition (under pc) in which the implicit panic happens
-	f.raise(and(f.pc, cond), kind, anchor)
+	f.raiseV(and(f.pc, cond), kind, anchor, val)
 	f.pc = f.ex.def(f.pfx+"pc", "Bool", and(f.pc, not(cond)))
 }
 
